@@ -375,6 +375,7 @@ pub fn gen_project(d: &mut Draw, o: &GenOpts) -> Project {
         items: vec![],
         files: vec![],
         counter: 0,
+        counter_cyclic_placements: 0,
         placed: false,
     };
     let n_items = d.usize_in(o.min_items, o.max_items);
@@ -416,16 +417,28 @@ pub fn gen_project(d: &mut Draw, o: &GenOpts) -> Project {
             header: if d.chance(1, 3) { Some("generated".into()) } else { None },
         });
     }
-    let ordered = d.chance(7, 10);
+    let free = d.chance(1, 2);
     for it in 0..n_items {
-        let fi = if it < n_files {
-            it
-        } else if ordered {
-            n_files - 1 - d.below_usize(2.min(n_files))
-        } else {
-            d.below_usize(n_files)
-        };
+        let fi = if it < n_files { it } else { d.below_usize(n_files) };
         p.files[fi].items.push(it);
+    }
+    if !free || p.file_graph_cyclic() {
+        // monotone placement: the file index never decreases with the item
+        // id, and items only reference lower ids => no file-level cycle
+        if free {
+            p.counter_cyclic_placements += 1;
+        }
+        for f in p.files.iter_mut() {
+            f.items.clear();
+        }
+        let mut cuts: Vec<usize> = (0..n_files - 1).map(|_| d.usize_in(1, n_items - 1)).collect();
+        cuts.sort();
+        for it in 0..n_items {
+            let fi = cuts.iter().filter(|c| **c <= it).count();
+            p.files[fi].items.push(it);
+        }
+        // empty files get nothing to render: drop them
+        p.files.retain(|f| !f.items.is_empty());
     }
     // examples/
     if o.examples && d.chance(1, 5) {
